@@ -104,7 +104,10 @@ func globalLines(backend, id string) []string {
 	switch backend {
 	case "IOS":
 		pool = []string{"no logging monitor", "logging buffered 16384", "service timestamps log datetime msec",
-			"ip domain name example.com", "no ip http server", "service password-encryption", "ip ssh version 2"}
+			"ip domain name example.com", "no ip http server", "service password-encryption", "ip ssh version 2",
+			// the opposites of what prepareDevice sets before an approve: a compare must read them and leave them alone
+			// (seeded change C11-W1 "normalised" routing in configuration mode whenever `sh run` showed them)
+			"no ip classless", "no ip subnet-zero", "no logging synchronous"}
 	case "ASA":
 		pool = []string{"logging enable", "no logging monitor", "logging buffered warnings", "domain-name example.com",
 			"terminal width 80", "pager lines 24", "logging timestamp", "no snmp-server location"}
